@@ -145,7 +145,9 @@ class Merger(object):
         for i, (subdir, sc, st) in enumerate(
                 zip(self.subdirs, spike_clusters_l, spike_templates_l)):
             n_clu = np.max(sc) + 1
-            n_tmp = np.max(st) + 1
+            # NOTE: the last templates of a probe may have no spikes.
+            n_tmp = max(np.max(st) + 1,
+                        np.load(str(subdir / 'templates.npy'), mmap_mode='r').shape[0])
             sc += coffset
             st += toffset
             self.cluster_offsets.append(coffset)
